@@ -15,6 +15,8 @@ CONSTANTS
   GuardedConn = FALSE
   PerCycleWG = TRUE
   SubscribeMayFail = FALSE
+  StartMayFail = FALSE
+  ResetOnFailedStart = TRUE
   Script <- MCScript
 VIEW view
 INVARIANTS MutualExclusion FifoPrefix AtMostOnce ExactlyOnce NoPanic AfterShutdown NoLateStart Accounted
